@@ -24,7 +24,7 @@
                           costs, every usable cost goes through a current neighbour (or is the router's own
                           entry), no entry without a usable cost — what every history leaves behind *)
 From Coq Require Import Permutation.
-From Dv Require Import Model Spec Refresh RibFacts Net Graph Conv Final Flag.
+From Dv Require Import Model Spec Refresh RibFacts Net Graph Conv Final Flag ProtoModel ProtoFacts.
 Open Scope N_scope.
 
 (* the infinity metric and link cost the statement talks about, as translated from the source on this run *)
@@ -137,6 +137,57 @@ Theorem dv_reaches_fixed_point : forall S n evs,
   fixedb (run S evs) = true /\ converged (run S evs) = true.
 Proof. exact reaches_full_fixed_point. Qed.
 Print Assumptions dv_reaches_fixed_point.
+
+(* ---- the sequence-number and liveness layer (ProtoModel.v: advertSyncOnInterest, advertDataHandler,
+        checkDeadNeighbors with the real clock test) ---- *)
+
+(* advertisement Data whose sequence number is not the latest one announced by that neighbour (delayed, reordered,
+   or for a neighbour that is gone) leaves the whole state unchanged and flags nothing *)
+Theorem stale_data_ignored : forall P i j s adv,
+  pget (i, j) (nseq P) <> s -> pstep P (PData i j s adv) = (P, false).
+Proof. exact stale_data_ignored_gen. Qed.
+Print Assumptions stale_data_ignored.
+
+(* ... and Data for the current sequence number is exactly a Deliver of the table-level model: the Deliver events of
+   the convergence theorems are the ones that passed this guard (ptrace) *)
+Theorem current_data_is_a_deliver : forall P i j s adv ri,
+  getr (base P) i = Some ri -> In j (nbrs ri) -> pget (i, j) (nseq P) = s ->
+  ptrace P (PData i j s adv) = [Deliver i j adv] /\
+  base (fst (pstep P (PData i j s adv))) = fst (step (base P) (Deliver i j adv)) /\
+  nseq (fst (pstep P (PData i j s adv))) = nseq P.
+Proof. exact current_data_is_deliver. Qed.
+Print Assumptions current_data_is_a_deliver.
+
+(* every protocol run is a table-level run: well-formedness in every reachable protocol state, and
+   self-stabilisation stated on the table-level events the protocol run actually executes *)
+Theorem protocol_well_formed : forall evs, net_ok (base (prun pinit evs)).
+Proof. exact prun_ok. Qed.
+Print Assumptions protocol_well_formed.
+
+Theorem dv_protocol_self_stabilises : forall P n evs,
+  net_ok (base P) -> settled (topo_of (base P)) = true ->
+  (N.to_nat INF + maxdist (topo_of (base P)) <= n)%nat ->
+  arounds (topo_of (base P)) n (base P) (ptrace_all P evs) ->
+  converged (base (prun P evs)) = true.
+Proof. exact protocol_self_stabilises. Qed.
+Print Assumptions dv_protocol_self_stabilises.
+
+(* liveness: a Sync Interest refreshes lastSeen whatever its sequence number (also an unchanged one), and the sweep
+   removes only neighbours silent for longer than the dead interval — a live, quiet neighbour is never declared dead *)
+Theorem heartbeat_refreshes_liveness : forall P i j s ri,
+  getr (base P) i = Some ri -> i <> j ->
+  pget (i, j) (seen (fst (pstep P (PSync i j s)))) = now P.
+Proof. exact sync_refreshes_liveness. Qed.
+Print Assumptions heartbeat_refreshes_liveness.
+
+Theorem quiet_live_neighbour_never_dead : forall P i j s t dead ri,
+  net_ok (base P) -> getr (base P) i = Some ri -> In j (nbrs ri) -> i <> j ->
+  t <= now P + dead ->
+  let P1 := fst (pstep P (PSync i j s)) in
+  let P2 := fst (pstep P1 (PClock t)) in
+  In j (nbrs_of (base (fst (pstep P2 (PSweep i dead)))) i).
+Proof. exact quiet_live_neighbour_kept. Qed.
+Print Assumptions quiet_live_neighbour_never_dead.
 
 (* non-vacuity: a triangle 1-2-3 with a fourth router behind 3.  Router 4 disappears and 3 notices: the state is
    well formed and settled but not converged (1 and 2 still route to 4), three rounds later the routers are
